@@ -6,6 +6,7 @@ CONSTANTS
   Keys = {"a"}
   Vals = {"x", "y"}
   Prunings <- PruningsSel
+  Strategies = {}
   PrunSel = {1, 2, 3, 4, 5, 6, 7, 8, 9, 10, 11, 12, 13}
   MaxVer = 5
   MaxWrites = 1
@@ -16,6 +17,8 @@ CONSTANTS
   CrashPlan = FALSE
   CrashKind = "clean"
   TransientFirst = TRUE
+  MaxLoads = 0
+  LoadScope = "blockstart"
   ObsKind = {}
 VIEW view
 INVARIANTS
@@ -30,4 +33,5 @@ INVARIANTS
   Inv_FlushAtomic
 PROPERTIES
   Act_VersionStep
+  Act_IdleStepsKeepCommitID
 CHECK_DEADLOCK FALSE
